@@ -307,3 +307,55 @@ class Report:
 
 def norm_addr(s):
     return re.sub(r"0x[0-9a-fA-F]+", "[MEMADDR]", s)
+
+
+# --------------------------------------------------------------------------- repository corpus
+
+def corpus():
+    """The repository's own test scripts: [(name, source, expected_lines)], and the module map the
+    test harness of the repository serves (every script importable by its relative path)."""
+    root = os.path.join(REPO, "yarel", "tests", "scripts")
+    items, modules = [], {}
+    for d, _, files in sorted(os.walk(root)):
+        for f in sorted(files):
+            if not f.endswith(".yl"):
+                continue
+            p = os.path.join(d, f)
+            src = open(p, encoding="utf-8").read()
+            name = os.path.relpath(p, root)[:-3]
+            exp, cont = [], True
+            for l in src.split("\n"):
+                l = l.rstrip("\r")
+                if cont and l.startswith("// "):
+                    exp.append(l[3:])
+                else:
+                    cont = False
+            if exp:
+                exp.pop()
+            items.append((name, src, exp))
+            modules[name] = src
+    modules[""] = ""
+    return items, modules
+
+
+def match_expected(expected, actual):
+    """tests/test.rs::match_output with its [MEMADDR] wildcard."""
+    if len(expected) != len(actual):
+        return False
+    for e, a in zip(expected, actual):
+        if e == a:
+            continue
+        pat = re.escape(e).replace(re.escape("[MEMADDR]"), r"0x[0-9a-fA-F]+")
+        if not re.match("^" + pat, a):
+            return False
+    return True
+
+
+def run_output_lines(run):
+    """Printed lines followed by error messages, the way tests/test.rs assembles them."""
+    out = []
+    for s in run.get("out", []):
+        out += s.splitlines()
+    if not run.get("ok", True):
+        out += run.get("messages", [])
+    return out
